@@ -121,12 +121,18 @@ def mc_case(case):
 
 def gen(rng, n_reset, n_mc):
     cases = []
-    for _ in range(n_reset):
+    for j in range(n_reset):
         spec = net.rand_feeder_spec(rng, max_lines=5, ctrl=rng.choice(["manual", "manual", "main"]))
         if spec.get("mg") and rng.random() < 0.5:
             spec["mg"]["mode"] = rng.choice(["limited", "survival"])
         n_inc = rng.choice([5, 7, 9])
         case = {"kind": "reset", "spec": spec, "n_inc": n_inc, "dt": "1"}
+        quiet_bus = None
+        if j % 5 == 0:          # targeted: a load point without demand whose transformer is still failed when the run ends
+            fd = spec["feeders"][0]
+            i0 = rng.randrange(len(fd["parent"]))
+            fd["load"][i0] = "0"
+            quiet_bus = i0
         ps0 = net.build(dict(spec, exact=False))
         names = [l.name for l in ps0.lines if not l.is_backup]
         buses = [b.name for b in ps0.buses if b.name != "B0"]
@@ -137,14 +143,17 @@ def gen(rng, n_reset, n_mc):
                 faults.setdefault(str(k), []).append(["trafo", rng.choice(buses), "6"])
             else:
                 faults.setdefault(str(k), []).append(["line", rng.choice(names), str(rng.choice([4, 6, 8]))])
+        if quiet_bus is not None:
+            faults.setdefault(str(rng.randint(max(1, n_inc - 2), n_inc)), []).append(["trafo", ps0.get_comp(f"F0L{quiet_bus}").tbus.name, "6"])
         case["faults"] = faults
         cases.append(case)
-    for _ in range(n_mc):
-        spec = net.rand_feeder_spec(rng, max_lines=4, ctrl=rng.choice(["manual", "main"]), allow_tie=False)
+    for j in range(n_mc):
+        # alternately manual control and an ICT-based main controller
+        spec = net.rand_feeder_spec(rng, max_lines=4, ctrl=["manual", "main"][(j + rng.randrange(2) * (n_mc > 2)) % 2] if n_mc > 2 else ["manual", "main"][j % 2], allow_tie=False)
         if spec["ctrl"]["type"] == "main":        # a main controller that fails (hardware / software) and is repaired: its draws are part of the stream
             spec["ctrl"]["hw_rate"] = rng.choice([400, 900]); spec["ctrl"]["sw_rate"] = rng.choice([800, 2000])
         cases.append({"kind": "mc", "spec": spec, "n_inc": 10, "iters": rng.choice([5, 6]), "seed": rng.randint(0, 10 ** 6),
-                      "rate": rng.choice([800.0, 2000.0]), "rep": rng.choice([3.0, 5.0]), "dist0": rng.randrange(4), "procs": [1, rng.choice([2, 3])]})
+                      "rate": rng.choice([800.0, 2000.0]), "rep": rng.choice([3.0, 5.0]), "dist0": 0 if j % 2 == 0 else rng.randrange(4), "procs": [1, rng.choice([2, 3])]})   # dist0 = 0: the first line draws from the truncated normal
     return cases
 
 
